@@ -172,12 +172,13 @@ SAFE_BUILTINS = {
     "bytearray": bytearray, "any": any, "all": all, "round": round, "slice": slice, "divmod": divmod,
 }
 SAFE_METHODS = {
-    list: {"append", "extend", "index", "count", "copy", "insert", "pop"},
+    list: {"append", "extend", "index", "count", "copy", "insert", "pop", "clear", "remove", "reverse", "sort"},
     dict: {"items", "keys", "values", "get", "copy", "update", "setdefault", "clear", "pop", "popitem"},
     str: {"join", "format", "lower", "upper", "split", "startswith", "endswith", "strip", "replace", "rstrip", "lstrip", "splitlines", "find", "rfind", "index", "count", "partition", "rpartition",
           "isdigit", "isascii", "encode", "casefold", "rsplit", "isalpha", "isspace", "isalnum", "isprintable", "removeprefix", "removesuffix", "zfill", "isupper", "islower", "rindex", "isdecimal"},
     tuple: {"index", "count"},
-    set: {"add", "update"},
+    set: {"add", "update", "discard", "remove", "clear", "copy", "union", "intersection", "difference", "issubset", "issuperset", "pop"},
+    frozenset: {"union", "intersection", "difference", "issubset", "issuperset", "copy"},
     bytes: {"hex", "startswith", "endswith", "find", "rfind", "index", "rindex", "count", "decode", "isascii", "strip", "lstrip", "rstrip", "split", "rsplit", "upper", "lower", "partition", "rpartition",
             "splitlines", "replace", "join", "isdigit", "isalpha", "isalnum", "isspace", "removeprefix", "removesuffix", "zfill", "translate"},
     bytearray: {"append", "extend", "hex", "startswith", "endswith", "find", "rfind", "index", "rindex", "count", "decode", "isascii", "strip", "lstrip", "rstrip", "split", "partition", "rpartition",
@@ -458,6 +459,10 @@ class ConstEval:
                     env[loc] = getattr(_math, a.name)
                 else:
                     env[loc] = Opaque(f"external {a.name}")
+            return
+        if isinstance(s, ast.Assert):
+            if not self.truth(self.eval(s.test, env, mod)):
+                self.definite_raise("AssertionError", "assert failed")
             return
         raise NotConstant(f"statement {type(s).__name__}")
 
